@@ -8,6 +8,9 @@ pub fn parse_statement(
     // 1-based line number for error messages; captured before any sub-parser advances the index.
     let ln = *line_index + 1;
 
+    // Every block parsed from here is one level deeper
+    let _nesting = crate::nesting::enter().map_err(|e| e.with_line(ln))?;
+
     if trimmed.is_empty() || trimmed.starts_with("//") {
         *line_index += 1;
         return Ok(ParsedStatement::Nodes(Vec::new()));
@@ -146,6 +149,7 @@ pub fn parse_statement(
     if !trimmed.starts_with("->") && trimmed.starts_with('-') {
         *line_index += 1;
         let gather_level = choice::gather_nesting_level(trimmed);
+        crate::nesting::check_marker_level(gather_level).map_err(|e| e.with_line(ln))?;
         // Strip all leading '-' markers (nested gathers like "- -" or "- - -") — nesting
         // is retained on labeled gathers for weave hierarchy emission.
         let mut gather_content = trimmed;
